@@ -1,5 +1,6 @@
 import St4sd.Model.Validate
 import St4sd.Lemmas.C11Expand
+import St4sd.Lemmas.C11Vars
 import St4sd.Gen.C11
 /-!
 # C11 — A workflow that loads is structurally executable; a broken one is rejected
@@ -284,6 +285,61 @@ theorem undefinedVar_rejected (tbl sch) (d : Doc) (hf : undefinedVar d) : valida
   intro h
   obtain ⟨c, hc, v, hv, hn⟩ := hf
   exact hn ((compErrors_nil ((validate_nil h).2.1 c hc)).2.2.2 v hv)
+
+/-! ## The scope of a variable: stage sections of the workflow, of the platform and of the user's files -/
+
+/-- a variable without a definition in the scope does not resolve -/
+theorem not_resolves_of_lookup_none {defs : List (S × List S)} {v : S} (h : lookup v defs = none) :
+    ¬ Resolves defs v := by
+  intro hr
+  cases hr with
+  | mk _ used hl _ => rw [h] at hl; cases hl
+
+/-- **scope_ignores_other_stages** (full): the variable scope of a component is the same when every stage
+section (of the workflow's `default` variables, of the active platform, of each user variables file) that is not
+for the component's own stage is dropped: nothing defined for another stage is visible. -/
+theorem scope_ignores_other_stages (d : Doc) (c : Comp) : defsOf (onlyStage c.stage d) c = defsOf d c := by
+  unfold defsOf
+  rw [userStage_onlyStage, userGlobals_onlyStage]
+  show c.vars ++ userStage d c.stage ++ userGlobals d ++
+      sectionOf (d.platStageVars.filter (fun p => p.1 == c.stage)) c.stage ++ d.platGlobals ++
+      sectionOf (d.stageVars.filter (fun p => p.1 == c.stage)) c.stage ++ d.globals = _
+  rw [sectionOf_filter, sectionOf_filter]
+
+/-- **varOfOtherStage_unresolved** (full): a variable that is defined neither by the component, nor globally
+(workflow, active platform, any user variables file), nor by a section FOR THE COMPONENT'S STAGE (workflow, active
+platform, any user variables file) does not resolve in the scope of the component — whatever the sections of
+other stages define. -/
+theorem varOfOtherStage_unresolved (d : Doc) (c : Comp) (v : S)
+    (hown : lookup v c.vars = none) (hg : lookup v d.globals = none) (hpg : lookup v d.platGlobals = none)
+    (hug : ∀ f ∈ d.userFiles, lookup v f.globals = none)
+    (hs : ∀ sec ∈ d.stageVars, sec.1 = c.stage → lookup v sec.2 = none)
+    (hps : ∀ sec ∈ d.platStageVars, sec.1 = c.stage → lookup v sec.2 = none)
+    (hus : ∀ f ∈ d.userFiles, ∀ sec ∈ f.stages, sec.1 = c.stage → lookup v sec.2 = none) :
+    ¬ Resolves (defsOf d c) v := by
+  apply not_resolves_of_lookup_none
+  unfold defsOf
+  have h1 : lookup v (userStage d c.stage) = none := by
+    unfold userStage
+    exact lookup_flatMap_none _ _ _ (fun f hf => lookup_sectionOf_none _ _ _ (hus f (List.mem_reverse.mp hf)))
+  have h2 : lookup v (userGlobals d) = none := by
+    unfold userGlobals
+    exact lookup_flatMap_none _ _ _ (fun f hf => hug f (List.mem_reverse.mp hf))
+  have h3 := lookup_sectionOf_none v d.platStageVars c.stage hps
+  have h4 := lookup_sectionOf_none v d.stageVars c.stage hs
+  exact lookup_append_none _ _ _ (lookup_append_none _ _ _ (lookup_append_none _ _ _ (lookup_append_none _ _ _
+    (lookup_append_none _ _ _ (lookup_append_none _ _ _ hown h1) h2) h3) hpg) h4) hg
+
+/-- **varOfOtherStage_rejected** (full): a workflow one of whose components mentions such a variable — e.g. one
+that only a section of ANOTHER stage defines, in the workflow or in a user variables file — is rejected. -/
+theorem varOfOtherStage_rejected (tbl sch) (d : Doc) (c : Comp) (v : S) (hc : c ∈ d.comps) (hv : v ∈ c.uses)
+    (hown : lookup v c.vars = none) (hg : lookup v d.globals = none) (hpg : lookup v d.platGlobals = none)
+    (hug : ∀ f ∈ d.userFiles, lookup v f.globals = none)
+    (hs : ∀ sec ∈ d.stageVars, sec.1 = c.stage → lookup v sec.2 = none)
+    (hps : ∀ sec ∈ d.platStageVars, sec.1 = c.stage → lookup v sec.2 = none)
+    (hus : ∀ f ∈ d.userFiles, ∀ sec ∈ f.stages, sec.1 = c.stage → lookup v sec.2 = none) :
+    validate tbl sch d ≠ [] :=
+  undefinedVar_rejected tbl sch d ⟨c, hc, v, hv, varOfOtherStage_unresolved d c v hown hg hpg hug hs hps hus⟩
 
 /-! ## Replication: the expanded graph of an accepted workflow -/
 
@@ -583,9 +639,42 @@ example : validate Gen.C11.convTable Gen.C11.componentSchema
     (withComps (c 0 "src" [(1, "join".toList)] [] [] :: good.comps.drop 1)) = [Err.cycle] := by decide +kernel
 example : undefinedVar { good with globals := [] } := by
   refine ⟨c 0 "src" [] [] ["g".toList], .head _, "g".toList, .head _, ?_⟩
-  intro h; cases h with | mk _ used hl _ => simp [defsOf, c, lookup] at hl
+  intro h; cases h with | mk _ used hl _ => simp [defsOf, c, lookup, good, userStage, userGlobals, sectionOf] at hl
 example : (validate Gen.C11.convTable Gen.C11.componentSchema { good with globals := [] }).isEmpty = false := by
   decide +kernel
+
+/-! ### scoped variables: the workflow's stage sections, a platform, two user variables files -/
+
+/-- two stages; `seed` comes from the user's files only: the first file defines it for stage 0, the second one
+for stage 1 (and overrides `g` globally); `q` is a stage variable of the workflow for stage 1, `p` one of the
+active platform for stage 0 -/
+private def scopedDoc : Doc :=
+  { comps := [c 0 "produce" [] [] ["seed".toList, "p".toList, "g".toList],
+              c 1 "consume" [(0, "produce".toList)] [] ["seed".toList, "q".toList]],
+    globals := [("g".toList, [])],
+    stageVars := [(1, [("q".toList, ["g".toList])])],
+    platStageVars := [(0, [("p".toList, [])])],
+    userFiles := [{ stages := [(0, [("seed".toList, [])])] },
+                  { globals := [("g".toList, [])], stages := [(1, [("seed".toList, ["g".toList])])] }] }
+
+example : validate Gen.C11.convTable Gen.C11.componentSchema scopedDoc = [] := by decide +kernel
+
+/-- the single fault "the second file no longer defines `seed` for stage 1": `seed` is defined for stage 0 only,
+`consume` (stage 1) mentions an undefined variable, the workflow is rejected -/
+private def scopedFault : Doc :=
+  { scopedDoc with userFiles := [{ stages := [(0, [("seed".toList, [])])] }, { globals := [("g".toList, [])] }] }
+
+example : validate Gen.C11.convTable Gen.C11.componentSchema scopedFault
+    = [Err.undefinedVariable (1, "consume".toList) "seed".toList] := by decide +kernel
+example : validate Gen.C11.convTable Gen.C11.componentSchema scopedFault ≠ [] :=
+  varOfOtherStage_rejected _ _ scopedFault (c 1 "consume" [(0, "produce".toList)] [] ["seed".toList, "q".toList])
+    "seed".toList (.tail _ (.head _)) (.head _) (by decide) (by decide) (by decide) (by decide) (by decide)
+    (by decide) (by decide)
+/-- … and so is the same definition moved to the section of the wrong stage, in the workflow or for the platform -/
+example : (validate Gen.C11.convTable Gen.C11.componentSchema
+    { scopedDoc with stageVars := [(0, [("q".toList, ["g".toList])])] }).isEmpty = false := by decide +kernel
+example : (validate Gen.C11.convTable Gen.C11.componentSchema
+    { scopedDoc with platStageVars := [(1, [("p".toList, [])])] }).isEmpty = false := by decide +kernel
 
 /-! ### replication -/
 
